@@ -1,6 +1,7 @@
-"""Extension (beyond the listed properties): unbounded arguments for two DESIGNS of the specification library, with
+"""Extension (beyond the listed properties): unbounded arguments for three DESIGNS of the specification library, with
 Apalache - inductive invariants of spec/Apa_Link.tla (all bandwidths, all frame sizes; C18's design) and
-spec/Apa_NodePower.tla (all start-up / shut-down durations; C12's design).  For each module: the base case (Init =>
+spec/Apa_NodePower.tla (all start-up / shut-down durations; C12's design) and spec/Apa_Software.tla (all restart /
+install durations; C13's design).  For each module: the base case (Init =>
 IndInv, length 0), the inductive step (IndInv /\\ Next => IndInv', length 1 from IndInit) and a mutated design that
 Apalache must refute (otherwise the invariant binds nothing).  Extra evidence only: no property verdict relies on
 it (DESIGN.md section 8).  Run: ./check EXT-apalache"""
@@ -23,6 +24,9 @@ MODULES: List[Tuple[str, str, str, str]] = [
      "AdmitOK(sz) == Up /\\ Committed + sz <= bw", "AdmitOK(sz) == Up /\\ carried + sz <= bw"),
     ("Apa_NodePower", "interfaces down unless ON, nothing runs when OFF, timed transitions never overdue, for every pair of durations",
      'nic1\' = (t = "ON" /\\ sn1)', 'nic1\' = (t \\in {"ON", "SD"} /\\ sn1)'),
+    ("Apa_Software", "timers of restart / install stay inside the completion window, nothing runs on a node that is off, a tick is "
+     "always possible, for every pair of durations",
+     "\\/ sage < restartDur /\\ sop' = sop", "\\/ sage <= restartDur /\\ sop' = sop"),
 ]
 
 
@@ -71,7 +75,7 @@ def main(tier: str, seed: int) -> int:
         if verdict != "violation":
             raise tlc.TLCError(f"{mod}: the mutated design was not refuted ({verdict}) - the inductive invariant binds nothing")
     chk.cov.update({"obligations": obligations, "discharged": discharged, "checker_cmd": " ; ".join(cmds),
-                    "trusted_base": ["Apalache 0.58 (SMT: z3)", "the hand-made correspondence between Apa_Link / Apa_NodePower and the design "
-                                     "variants of MC_Link / MC_NodePower (same actions, typed, sizes and durations unbounded)"]})
-    chk.assumptions += ["nesting depth of deliveries bounded by 3 (Apa_Link), two interfaces and two pieces of software (Apa_NodePower)"]
+                    "trusted_base": ["Apalache 0.58 (SMT: z3)", "the hand-made correspondence between Apa_Link / Apa_NodePower / Apa_Software and the design "
+                                     "variants of MC_Link / MC_NodePower / MC_Software (same actions, typed, sizes and durations unbounded)"]})
+    chk.assumptions += ["nesting depth of deliveries bounded by 3 (Apa_Link), two interfaces and two pieces of software (Apa_NodePower), one service and one application (Apa_Software)"]
     return chk.finish()
